@@ -70,7 +70,7 @@ func VerifHarness_C16_connect_twice() {
 	vReach("end")
 }
 
-//verif:props=C16,C15,C18 replay=model bounds="one manager, two allocations of different users, one peer connection; all ids; bind deadline fired before/after bind"
+//verif:props=C16,C15,C18 replay=model bounds="one manager, two allocations of different users or of one user (the connection in either), one peer connection; all ids; bind deadline fired before/after bind"
 func VerifHarness_C16_bind_once() {
 	env := VNewManager(false, false)
 	m := env.M
@@ -79,8 +79,15 @@ func VerifHarness_C16_bind_once() {
 	vAssume(err == nil)
 	ft2 := VFiveTuple()
 	vAssume(ft2.Fingerprint() != a1.fiveTuple.Fingerprint())
-	_, err = m.CreateAllocation(ft2, &VPacketConn{Name: "turn2"}, proto.ProtoTCP, 0, 600*time.Second, u2, "realm", proto.RequestedFamilyIPv4)
+	if vBool() {
+		u2 = u1 // one user may hold several allocations (several 5-tuples): ids are looked up across all of them
+	}
+	a2, err := m.CreateAllocation(ft2, &VPacketConn{Name: "turn2"}, proto.ProtoTCP, 0, 600*time.Second, u2, "realm", proto.RequestedFamilyIPv4)
 	vAssume(err == nil)
+	if u2 == u1 && vBool() {
+		a1, a2 = a2, a1 // the connection lives in the allocation created second
+	}
+	_ = a2
 	peer := proto.PeerAddress{IP: VIP4(), Port: VPort()}
 	c0 := vClock()
 	id, e := m.CreateTCPConnection(a1, peer)
